@@ -19,8 +19,6 @@ use crate::rng::Rng;
 use lopdf::{Dictionary, Document, Encoding, Object, Stream};
 use serde_json::json;
 
-const SITE_ADD: &str = "src/encodings/cmap.rs:94";
-const SITE_INDEX: &str = "src/encodings/cmap.rs:98";
 
 // ------------------------------------------------------------------ abstract definitions
 
@@ -88,12 +86,12 @@ fn flatten(secs: &[Sec]) -> Vec<Def> {
 
 /// what kind of value the definition puts into the interval map (structure of the input, not of the run-time state)
 #[derive(PartialEq, Clone, Debug)]
-enum Stored { Off(u32), Hex(Vec<u16>), Arr(Vec<Vec<u16>>) }
+enum Stored { Off(u32), Hex(u32, Vec<u16>), Arr(u32, Vec<Vec<u16>>) }
 fn stored_of(d: &Def) -> Stored {
     match d {
-        Def::Char { code, dst, .. } => if dst.len() == 1 { Stored::Off((dst[0] as u32).wrapping_sub(*code)) } else { Stored::Hex(dst.clone()) },
+        Def::Char { code, dst, .. } => if dst.len() == 1 { Stored::Off((dst[0] as u32).wrapping_sub(*code)) } else { Stored::Hex(*code, dst.clone()) },
         Def::Range { lo, dsts, .. } => if dsts.len() == 1 && dsts[0].len() == 1 { Stored::Off((dsts[0][0] as u32).wrapping_sub(*lo)) }
-            else if dsts.len() == 1 { Stored::Hex(dsts[0].clone()) } else { Stored::Arr(dsts.clone()) },
+            else if dsts.len() == 1 { Stored::Hex(*lo, dsts[0].clone()) } else { Stored::Arr(*lo, dsts.clone()) },
     }
 }
 /// least code `s <= code` such that every code in `s..=code` is given an equal stored value by its last covering definition
@@ -121,22 +119,8 @@ fn cause(defs: &[Def], code: u32, len: u8) -> String {
     String::new()
 }
 
-/// the guard of theorem `cmap_get_partial` (lean/LopdfModel/Thm/C15.lean, `separated` + `Def.wf`), written again here:
-/// every definition is well-formed, and every definition that is not single-unit overlaps no other definition
-/// and is not adjacent to one that is stored with an equal target
-fn in_proved_domain(defs: &[Def]) -> bool {
-    if !defs.iter().all(|d| d.well_formed()) { return false; }
-    for (i, d) in defs.iter().enumerate() {
-        for e in &defs[i + 1..] {
-            if d.is_single() && e.is_single() { continue; }
-            if d.len() != e.len() { continue; }
-            let overlap = d.lo() <= e.hi() && e.lo() <= d.hi();
-            let adjacent = d.hi() as u64 + 1 == e.lo() as u64 || e.hi() as u64 + 1 == d.lo() as u64;
-            if overlap || (adjacent && stored_of(d) == stored_of(e)) { return false; }
-        }
-    }
-    true
-}
+/// the domain of theorem `cmap_get` (lean/LopdfModel/Thm/C15.lean, `Def.wf`): every definition is well-formed
+fn in_proved_domain(defs: &[Def]) -> bool { defs.iter().all(|d| d.well_formed()) }
 
 // ------------------------------------------------------------------ rendering
 
@@ -343,13 +327,15 @@ impl<'a> Cur<'a> {
         Some(o)
     }
     fn target(&mut self) -> Option<String> {
-        if self.eat("HexString(") { let u = self.units()?; if !self.eat(")") { return None; } return Some(format!("h{}", u)); }
+        if self.eat("HexString { start: ") { let st = self.num()?; if !self.eat(", value: ") { return None; } let u = self.units()?; if !self.eat(" }") { return None; } return Some(format!("h{}:{}", st, u)); }
         if self.eat("UTF16CodePoint { offset: ") { let n = self.num()?; if !self.eat(" }") { return None; } return Some(format!("c{}", n)); }
-        if self.eat("ArrayOfHexStrings([") {
+        if self.eat("ArrayOfHexStrings { start: ") {
+            let st = self.num()?;
+            if !self.eat(", values: [") { return None; }
             let mut parts = vec![];
             if !self.eat("]") { loop { parts.push(self.units()?); if self.eat("]") { break; } if !self.eat(", ") { return None; } } }
-            if !self.eat(")") { return None; }
-            return Some(format!("a{}", parts.join("/")));
+            if !self.eat(" }") { return None; }
+            return Some(format!("a{}:{}", st, parts.join("/")));
         }
         None
     }
@@ -506,6 +492,23 @@ fn gen_table_defs(r: &mut Rng) -> Vec<Def> {
     defs
 }
 
+/// damage some definitions the way sloppy producers do — the CMap is still accepted by `from_sections`:
+/// arrays shorter / longer than their range, incrementing targets that run past FFFF, one-entry arrays over wide ranges
+fn make_sloppy(r: &mut Rng, defs: &mut Vec<Def>) {
+    for d in defs.iter_mut() {
+        if !r.chance(1, 2) { continue; }
+        if let Def::Range { lo, hi, len, dsts } = d {
+            match r.below(5) {
+                0 => { if dsts.len() > 1 { let k = 1 + r.usize(dsts.len() - 1); dsts.truncate(k); } }
+                1 => { let extra = 1 + r.usize(3); for _ in 0..extra { let mm = r.chance(1, 2); dsts.push(gen_target(r, mm)); } }
+                2 => { if let Some(t) = dsts.first_mut() { if let Some(l) = t.last_mut() { *l = 0xFFFF - r.below(3) as u16; } } *hi = (*hi).saturating_add(r.below(6) as u32).min(max_code(*len)); }
+                3 => { dsts.truncate(1); *hi = (*hi).saturating_add(1 + r.below(4) as u32).min(max_code(*len)); }
+                _ => { *lo = (*lo).min(*hi); }
+            }
+        }
+    }
+}
+
 /// split a definition list into sections (bfchar lines must be Char, bfrange lines Range); a Char may be rewritten as a 1-wide range
 fn sectionize(r: &mut Rng, defs: &[Def]) -> Vec<Sec> {
     let mut secs: Vec<Sec> = vec![];
@@ -639,7 +642,7 @@ fn check_case(c: &mut Ctx, r: &mut Rng, stream: &str, secs: &[Sec], st: Stats, s
                 (_, "") => format!("panic@{}", site),
                 (_, z) => format!("{}/panic@{}", z, site),
             };
-            let sig = if st.strict { c.count("strict.failures"); format!("strict-stream:{}", sig) } else { sig };
+            let sig = if st.strict { c.count("strict.failures"); format!("proved-domain:{}", sig) } else { sig };
             c.oracle_fail(&sig, &format!("get({:#x},{}) = {} but the CMap defines {:?}", code, len, show_get(g), want),
                 json!({"stream": stream, "sections": secs_tok, "code": code_tok(*code, *len), "cmap_text": String::from_utf8_lossy(&text)}));
         }
@@ -673,7 +676,7 @@ fn check_case(c: &mut Ctx, r: &mut Rng, stream: &str, secs: &[Sec], st: Stats, s
             None => if units.first() == Some(&0xFEFF) || units.first() == Some(&0xFFFE) || (units.len() >= 2 && units[0] == 0xEFBB && units[1] >> 8 == 0xBF) {
                 "bom-sniffed-output".to_string() } else { "unexplained-wrong-text".to_string() },
         };
-        let sig = if st.strict && sig != "bom-sniffed-output" { c.count("strict.failures"); format!("strict-stream:{}", sig) } else { sig };
+        let sig = if st.strict { c.count("strict.failures"); format!("proved-domain:{}", sig) } else { sig };
         c.oracle_fail(&sig, &format!("decode_text({}) = {} but the CMap defines {:?}", hex(bytes), show_decode(d), want),
             json!({"stream": stream, "sections": secs_tok, "bytes": hex(bytes), "cmap_text": String::from_utf8_lossy(&text)}));
     }
@@ -695,42 +698,37 @@ fn run_witness(secs: &[Sec], queries: &[(u32, u8)], input: &[u8]) -> (Vec<String
 fn ch(code: u32, len: u8, dst: &[u16]) -> Def { Def::Char { code, len, dst: dst.to_vec() } }
 fn rg(lo: u32, hi: u32, len: u8, dsts: &[&[u16]]) -> Def { Def::Range { lo, hi, len, dsts: dsts.iter().map(|d| d.to_vec()).collect() } }
 
+/// The canonical witnesses of the (now fixed) findings F-C15-a..e, re-run on every check as regression cases:
+/// `reproduced` = the real code again answers something other than what the CMap defines.
 fn witnesses(c: &mut Ctx) {
+    let mut one = |c: &mut Ctx, id: &str, what: &str, secs: Vec<Sec>, queries: Vec<(u32, u8)>, want_gets: Vec<&str>, input: Vec<u8>, want_decode: &str| {
+        let (g, d) = run_witness(&secs, &queries, &input);
+        let ok = g.iter().map(|x| x.as_str()).collect::<Vec<_>>() == want_gets && d == want_decode;
+        c.witness(id, !ok, &format!("{}: get = {:?} (defined {:?}), decode {} = {} (defined {})", what, g, want_gets, hex(&input), d, want_decode));
+        let qtok: String = queries.iter().map(|(code, len)| format!(" {}", code_tok(*code, *len))).collect();
+        c.corr(format!("cmap_get {}q{}", sections_tok(&secs), qtok), format!("ok{}", g.iter().map(|x| format!(" {}", x)).collect::<String>()));
+        c.corr(format!("cmap_decode {}q {}", sections_tok(&secs), hex_tok(&input)), d);
+    };
     // F-C15-a: two adjacent codes with the same ligature target
-    let secs = vec![Sec::Chars(vec![ch(1, 1, &[0x66, 0x69]), ch(2, 1, &[0x66, 0x69])])];
-    let (g, d) = run_witness(&secs, &[(1, 1), (2, 1)], &[1, 2]);
-    c.witness("F-C15-a", g == ["u00660069", "u0066006a"] && d == "ok 66 69 66 6a", &format!("<01>,<02> -> <00660069>: get = {:?}, decode [1,2] = {}", g, d));
-    c.corr("cmap_decode bc 2 01 00660069 02 00660069 q 0102".into(), d);
-    // F-C15-b: a later bfchar inside an incrementing multi-unit range shifts the offsets of the rest of the range
-    let secs = vec![Sec::Ranges(vec![rg(0x10, 0x13, 1, &[&[0x41, 0x42]])]), Sec::Chars(vec![ch(0x11, 1, &[0x58])])];
-    let (g, _) = run_witness(&secs, &[(0x10, 1), (0x12, 1), (0x13, 1)], &[0x12]);
-    c.witness("F-C15-b", g == ["u00410042", "u00410042", "u00410043"], &format!("<10><13> <00410042> then <11> <0058>: get(10,12,13) = {:?} (defined: 00410042 00410044 00410045)", g));
-    c.corr("cmap_get br 1 10 13 1 00410042 bc 1 11 0058 q 10 12 13".into(), format!("ok {}", g.join(" ")));
-    // … and the same for an array target: the remaining piece is indexed from its own start
-    let secs = vec![Sec::Ranges(vec![rg(0x10, 0x12, 1, &[&[0x41, 0x41], &[0x42, 0x42], &[0x43, 0x43]])]), Sec::Chars(vec![ch(0x10, 1, &[0x58])])];
-    let (g, _) = run_witness(&secs, &[(0x11, 1), (0x12, 1)], &[0x11]);
-    c.witness("F-C15-b", g == ["u00410041", "u00420042"], &format!("array range <10><12> then <10> <0058>: get(11,12) = {:?} (defined: 00420042 00430043)", g));
-    // F-C15-c: two adjacent array ranges with equal arrays coalesce; the index runs past the array
-    let secs = vec![Sec::Ranges(vec![rg(1, 2, 1, &[&[0x41, 0x41], &[0x42, 0x42]]), rg(3, 4, 1, &[&[0x41, 0x41], &[0x42, 0x42]])])];
-    let (g, d) = run_witness(&secs, &[(3, 1)], &[3]);
-    c.witness("F-C15-c", g == [format!("panic@{}", SITE_INDEX)] && d == format!("panic@{}", SITE_INDEX), &format!("well-formed adjacent equal arrays: get(3) = {:?}, decode = {}", g, d));
-    c.corr("cmap_get br 2 01 02 2 00410041 00420042 03 04 2 00410041 00420042 q 03".into(), format!("ok {}", g.join(" ")));
-    //          and the plainly short array
-    let secs = vec![Sec::Ranges(vec![rg(1, 3, 1, &[&[0x41], &[0x42]])])];
-    let (g, _) = run_witness(&secs, &[(3, 1)], &[3]);
-    c.witness("F-C15-c", g == [format!("panic@{}", SITE_INDEX)], &format!("array shorter than its range: get(3) = {:?}", g));
-    // F-C15-d: coalesced equal targets ending in FFFF: u16 `+=` overflows
-    let secs = vec![Sec::Chars(vec![ch(1, 1, &[0x41, 0xFFFF]), ch(2, 1, &[0x41, 0xFFFF])])];
-    let (g, d) = run_witness(&secs, &[(2, 1)], &[2]);
-    c.witness("F-C15-d", g == [format!("panic@{}", SITE_ADD)] && d == format!("panic@{}", SITE_ADD), &format!("<01>,<02> -> <0041FFFF>: get(2) = {:?}", g));
-    c.corr("cmap_get bc 2 01 0041ffff 02 0041ffff q 02".into(), format!("ok {}", g.join(" ")));
-    // F-C15-e: the decoded units go through a BOM-sniffing decoder
-    let secs = vec![Sec::Chars(vec![ch(1, 1, &[0xFFFE]), ch(2, 1, &[0x41]), ch(3, 1, &[0xFEFF])])];
-    let (_, d1) = run_witness(&secs, &[], &[1, 2]);
-    let (_, d2) = run_witness(&secs, &[], &[3, 2]);
-    c.witness("F-C15-e", d1 == "ok 4100" && d2 == "ok 41", &format!("<01>-><FFFE>, <02>-><0041>, <03>-><FEFF>: decode [1,2] = {} (defined: fffe 41), decode [3,2] = {} (defined: feff 41)", d1, d2));
-    c.corr("cmap_decode bc 3 01 fffe 02 0041 03 feff q 0102".into(), d1);
-    c.corr("cmap_decode bc 3 01 fffe 02 0041 03 feff q 0302".into(), d2);
+    one(c, "F-C15-a", "<01>,<02> -> <00660069>", vec![Sec::Chars(vec![ch(1, 1, &[0x66, 0x69]), ch(2, 1, &[0x66, 0x69])])],
+        vec![(1, 1), (2, 1)], vec!["u00660069", "u00660069"], vec![1, 2], "ok 66 69 66 69");
+    // F-C15-b: a later bfchar inside an incrementing multi-unit range must not shift the rest of the range
+    one(c, "F-C15-b", "<10><13> <00410042> then <11> <0058>", vec![Sec::Ranges(vec![rg(0x10, 0x13, 1, &[&[0x41, 0x42]])]), Sec::Chars(vec![ch(0x11, 1, &[0x58])])],
+        vec![(0x10, 1), (0x11, 1), (0x12, 1), (0x13, 1)], vec!["u00410042", "u0058", "u00410044", "u00410045"], vec![0x12], "ok 41 44");
+    one(c, "F-C15-b", "array range <10><12> then <10> <0058>", vec![Sec::Ranges(vec![rg(0x10, 0x12, 1, &[&[0x41, 0x41], &[0x42, 0x42], &[0x43, 0x43]])]), Sec::Chars(vec![ch(0x10, 1, &[0x58])])],
+        vec![(0x10, 1), (0x11, 1), (0x12, 1)], vec!["u0058", "u00420042", "u00430043"], vec![0x11], "ok 42 42");
+    // F-C15-c: two adjacent array ranges with equal arrays; an array shorter than its range (malformed: unmapped, no panic)
+    one(c, "F-C15-c", "adjacent equal arrays", vec![Sec::Ranges(vec![rg(1, 2, 1, &[&[0x41, 0x41], &[0x42, 0x42]]), rg(3, 4, 1, &[&[0x41, 0x41], &[0x42, 0x42]])])],
+        vec![(3, 1), (4, 1)], vec!["u00410041", "u00420042"], vec![3], "ok 41 41");
+    one(c, "F-C15-c", "array shorter than its range", vec![Sec::Ranges(vec![rg(1, 3, 1, &[&[0x41], &[0x42]])])],
+        vec![(2, 1), (3, 1)], vec!["u0042", "-"], vec![2], "ok 42");
+    // F-C15-d: coalesced equal targets ending in FFFF
+    one(c, "F-C15-d", "<01>,<02> -> <0041FFFF>", vec![Sec::Chars(vec![ch(1, 1, &[0x41, 0xFFFF]), ch(2, 1, &[0x41, 0xFFFF])])],
+        vec![(2, 1)], vec!["u0041ffff"], vec![2], "ok 41 ffff");
+    // F-C15-e: text starting with U+FFFE / U+FEFF
+    let bom = vec![Sec::Chars(vec![ch(1, 1, &[0xFFFE]), ch(2, 1, &[0x41]), ch(3, 1, &[0xFEFF])])];
+    one(c, "F-C15-e", "<01>-><FFFE>, <02>-><0041>", bom.clone(), vec![], vec![], vec![1, 2], "ok fffe 41");
+    one(c, "F-C15-e", "<03>-><FEFF>, <02>-><0041>", bom, vec![], vec![], vec![3, 2], "ok feff 41");
 }
 
 /// text-level malformed stream: one byte edit in the section part; only model/implementation correspondence and "no panic"
@@ -849,7 +847,7 @@ fn run_inner(c: &mut Ctx) {
 overlapping/adjacent definitions in any order inside small windows of the code space incl. both ends) and random mapping tables rendered \
 with range merging/splitting; CMap text with random sectioning, white space, comments, hex case, metadata variants; lookups at every range \
 end +-1 and inside, other code lengths, unmapped codes; byte strings over mapped codes. Streams: single (single-unit targets only, strict), \
-isolated (non-single definitions touch nothing, strict), wild and table (anything; failures classified structurally), malformed (byte / hex-byte / blank-run \
+isolated (non-single definitions touch nothing), wild and table (anything well-formed: equal adjacent targets, later definitions inside ranges …), sloppy (accepted but malformed targets: short/long arrays, ranges past FFFF; no-panic + correspondence), canonical (the writer of theorem cmap_parse_render), malformed (byte / hex-byte / blank-run \
 edits) and grammar (24 lines at and beyond the edges of the grammar) — correspondence only. Non-trivial = every case; distinct by request text.".into();
     witnesses(c);
     for i in 0..c.n(2000, 40000) {
@@ -879,6 +877,14 @@ edits) and grammar (24 lines at and beyond the edges of the grammar) — corresp
     for i in 0..c.n(1500, 25000) {
         let Some(mut r) = c.case("malformed", i) else { continue };
         malformed_case(c, &mut r);
+    }
+    // accepted but malformed targets: no panic (theorem cmap_get_no_panic), model/implementation correspondence
+    for i in 0..c.n(800, 15000) {
+        let Some(mut r) = c.case("sloppy", i) else { continue };
+        let mut defs = gen_defs(&mut r, Mode::Wild);
+        make_sloppy(&mut r, &mut defs);
+        let secs = sectionize(&mut r, &defs);
+        check_case(c, &mut r, "sloppy", &secs, Stats { strict: false, canonical: false }, true);
     }
     // the canonical writer of Spec/CMapRender.lean (theorem cmap_parse_render): same text from both sides, read by the real parser
     for i in 0..c.n(400, 6000) {
